@@ -114,6 +114,9 @@ func checkC06(c *Ctx, r *Report) {
 	checkPackageTablesReadOnly(c, r)
 	// ... and whose named field values mean on the wire what their names say
 	checkWireEnums(c, r)
+	// "Get Sensor Reading with any owner LUN": the sensor readers send their own command, built
+	// from the record (number and owner LUN), on every read (rules shared with C15, C20)
+	checkSensorRead(c, r)
 
 	checkOperationTable(c, r)
 	checkBuildLiterals(c, r)
